@@ -182,6 +182,31 @@ func addMovFallbackEncodings() {
 				},
 			},
 		},
+		// MOV Sreg, m16 / MOV m16, Sreg
+		InstructionForm{
+			Operands: &[]Operand{
+				{Type: "sreg", Input: Bool(false), Output: Bool(true)},
+				{Type: "m16", Input: Bool(true), Output: Bool(false)},
+			},
+			Encodings: []Encoding{
+				{
+					Opcode: Opcode{Byte: "8E"},
+					ModRM:  &Modrm{Mode: "#1", Reg: "#0", Rm: "#1"},
+				},
+			},
+		},
+		InstructionForm{
+			Operands: &[]Operand{
+				{Type: "m16", Input: Bool(false), Output: Bool(true)},
+				{Type: "sreg", Input: Bool(true), Output: Bool(false)},
+			},
+			Encodings: []Encoding{
+				{
+					Opcode: Opcode{Byte: "8C"},
+					ModRM:  &Modrm{Mode: "#0", Reg: "#1", Rm: "#0"},
+				},
+			},
+		},
 	)
 
 	// https://www.felixcloutier.com/x86/mov
